@@ -61,6 +61,7 @@ type harnessRef struct {
 	tier   string // "" = both, "thorough" = thorough only
 	shards int    // top-level Choose farmed out over this many workers
 	shard  int
+	modelFallback bool // native replay first; schedule-dependent counterexamples fall back to the engine
 	model  bool // counterexamples are replayed in the engine with the vector pinned (environment faults cannot be injected natively)
 }
 
@@ -100,6 +101,9 @@ func findHarnesses(id string) ([]harnessRef, error) {
 			}
 			if fd.Doc != nil && strings.Contains(fd.Doc.Text(), "verif:replay=model") {
 				hr.model = true
+			}
+			if fd.Doc != nil && strings.Contains(fd.Doc.Text(), "verif:replay=native-then-model") {
+				hr.modelFallback = true
 			}
 			if fd.Doc != nil {
 				if m := shardsRe.FindStringSubmatch(fd.Doc.Text()); m != nil {
@@ -142,6 +146,7 @@ type replayRec struct {
 	Where      string    `json:"where,omitempty"`
 	Decisions  []string  `json:"decisions,omitempty"`
 	Cmd        string    `json:"cmd"`
+	nativeFailed bool
 }
 
 var currentTier = "quick"
@@ -259,7 +264,7 @@ func cmdCheck(id, tier string) int {
 				h = x
 			}
 		}
-		if !h.model {
+		if !h.model && !(h.modelFallback && rr.nativeFailed) {
 			return false, ""
 		}
 		b := defaultBounds()
